@@ -248,7 +248,11 @@ pub fn apply_edit(kind: &'static str, fs: &Fs, f: &str, content: &str, rng: &mut
             // the same declarations with other line ends / byte order mark / end of file: every
             // byte position in the file moves, nothing else does
             let bom = '\u{feff}';
-            let new = match rng.below(5) {
+            let new = match rng.below(7) {
+                // tabs where blanks were (a tab is one character and several display columns)
+                5 => content.replace("  ", "\t").replace(": ", ":\t").replace("= ", "=\t"),
+                // wide characters earlier on the line (one character, two display columns)
+                6 => content.replace(": ", ": /*\u{5168}\u{89d2}*/ ").replace("= ", "= /*\u{8868}*/ "),
                 0 => content.replace("\r\n", "\n").replace('\n', "\r\n"),
                 1 => content.replace("\r\n", "\n"),
                 2 => {
